@@ -83,7 +83,10 @@ Definition match_iloc (q st : iloc) : bool :=
 Record imi := Imi { i_loc : iloc; i_val : N; i_ok : bool }.
 Record imtg := Imtg { g_type : N; g_gp : N; g_os : N; g_inits : list imi; g_val : N }.
 Record imattr := Imattr { a_name : list N; a_flags : N; a_conv : bool; a_valid : bool; a_tgs : list imtg }.
-Record mstate := MS { m_topo : topo; m_attrs : list imattr }.
+(* [m_alloc]: ids of the attributes whose targets array was ever allocated
+   (imattr->targets != NULL even when nr_targets went back to 0); only
+   hwloc_internal_memattrs_dup() looks at the difference. *)
+Record mstate := MS { m_topo : topo; m_attrs : list imattr; m_alloc : list N }.
 
 Definition has (f bit : N) : bool := negb (N.land f bit =? 0).
 Definition need_init (a : imattr) : bool := has (a_flags a) HWLOC_MEMATTR_FLAG_NEED_INITIATOR.
@@ -121,7 +124,10 @@ Fixpoint firstnN {A} (n : N) (l : list A) : list A :=
   end.
 Definition get_attr (s : mstate) (id : N) : option imattr := nth_errN (m_attrs s) id.
 Definition put_attr (s : mstate) (id : N) (a : imattr) : mstate :=
-  MS (m_topo s) (set_nthN id a (m_attrs s)).
+  MS (m_topo s) (set_nthN id a (m_attrs s)) (m_alloc s).
+
+Fixpoint number_from {A} (k : N) (l : list A) : list (N * A) :=
+  match l with [] => [] | x :: r => (k, x) :: number_from (N.succ k) r end.
 
 Fixpoint filter_map {A B} (f : A -> option B) (l : list A) : list B :=
   match l with
@@ -176,7 +182,7 @@ Definition need_refresh (l : list imattr) : list imattr :=
   map (fun a => if a_conv a then a else Imattr (a_name a) (a_flags a) (a_conv a) false (a_tgs a)) l.
 
 (* state right after hwloc_topology_load() *)
-Definition init_state (t : topo) : mstate := MS t (refresh_all t (need_refresh init_attrs)).
+Definition init_state (t : topo) : mstate := MS t (refresh_all t (need_refresh init_attrs)) [].
 
 (* ------------------------------------------------------------------ *)
 (* attribute table *)
@@ -193,7 +199,7 @@ Definition register (s : mstate) (name : list N) (flags : N) : mstate * res N :=
   else if N.land flags flags_hl =? 0 then (s, Err EINVAL)
   else if N.land flags flags_hl =? flags_hl then (s, Err EINVAL)
   else if name_used (m_attrs s) name then (s, Err EBUSY)
-  else (MS (m_topo s) (m_attrs s ++ [Imattr name flags false true []]),
+  else (MS (m_topo s) (m_attrs s ++ [Imattr name flags false true []]) (m_alloc s),
         Ok (N.of_nat (length (m_attrs s)))).
 
 Fixpoint index_of {A} (p : A -> bool) (l : list A) (k : N) : option N :=
@@ -258,6 +264,10 @@ Definition conv_value (id : N) (node : obj) : res N :=
     if o_hascpuset node then Ok (weight64 (o_cpuset node)) else Err EINVAL
   else Err EUB.  (* assert(0) *)
 
+(* realloc() of imattr->targets happened *)
+Definition mark_alloc (b : bool) (id : N) (s : mstate) : mstate :=
+  if b then MS (m_topo s) (m_attrs s) (id :: m_alloc s) else s.
+
 (* hwloc__internal_memattr_set_value *)
 Definition set_core (loaded : bool) (s : mstate) (id ty gp os : N) (il : option iloc) (v : N) : mstate * res unit :=
   match get_attr s id with
@@ -273,7 +283,7 @@ Definition set_core (loaded : bool) (s : mstate) (id ty gp os : N) (il : option 
                         | None => Imtg (g_type g) (g_gp g) (g_os g) (g_inits g) v
                         end in
       let (tgs, created) := upsert_tg ty gp os f (a_tgs a1) in
-      (put_attr s id (Imattr (a_name a1) (a_flags a1) (a_conv a1) (if created then false else a_valid a1) tgs), Ok tt)
+      (mark_alloc created id (put_attr s id (Imattr (a_name a1) (a_flags a1) (a_conv a1) (if created then false else a_valid a1) tgs)), Ok tt)
   end.
 
 (* hwloc_memattr_set_value *)
@@ -489,8 +499,6 @@ Definition dn_loop2 (st : dn_state) (e : N * obj) : dn_state :=
   else dn_check (if bs_subset (o_cpuset n) (dn_rem st) && negb (bs_is_empty (o_cpuset n))
                  then dn_take st n else st).
 
-Fixpoint number_from {A} (k : N) (l : list A) : list (N * A) :=
-  match l with [] => [] | x :: r => (k, x) :: number_from (N.succ k) r end.
 
 (* hwloc_topology_get_default_nodeset *)
 Definition default_nodeset (s : mstate) (flags : N) : res bset :=
@@ -510,12 +518,23 @@ Definition default_nodeset (s : mstate) (flags : N) : res bset :=
 (* hwloc_topology_restrict (successful): the topology is replaced by [t'] and
    hwloc_internal_memattrs_need_refresh() is called; the model does not compute
    [t'] (that is C08), it is an input. *)
-Definition retopo (s : mstate) (t' : topo) : mstate := MS t' (need_refresh (m_attrs s)).
+Definition retopo (s : mstate) (t' : topo) : mstate := MS t' (need_refresh (m_attrs s)) (m_alloc s).
 
 (* hwloc_topology_dup + continue with the copy: hwloc_internal_memattrs_dup
    clears CACHE_VALID of every attribute and all cached pointers *)
 Definition dup_switch (s : mstate) : mstate :=
-  MS (m_topo s) (map (fun a => Imattr (a_name a) (a_flags a) (a_conv a) false (a_tgs a)) (m_attrs s)).
+  MS (m_topo s) (map (fun a => Imattr (a_name a) (a_flags a) (a_conv a) false (a_tgs a)) (m_attrs s)) (m_alloc s).
+
+(* hwloc_internal_memattrs_dup memcpy()s the attribute array and then skips
+   ("continue") attributes with nr_targets == 0 without clearing the copied
+   [targets] pointer: if that array was allocated earlier (all its targets were
+   dropped by a refresh since), old and new topology now share it and both
+   free() it. *)
+Definition dup_shares (s : mstate) : bool :=
+  existsb (fun e => match snd e with
+                    | Imattr _ _ _ _ [] => existsb (N.eqb (fst e)) (m_alloc s)
+                    | _ => false
+                    end) (number_from 0 (m_attrs s)).
 
 (* XML export (hwloc__xml_export_memattrs) followed by import into a fresh
    topology (hwloc__xml_import_memattr, hwloc__xml_import_memattr_value) and the
@@ -546,9 +565,9 @@ Definition xml_import_attr (s : mstate) (e : N * imattr) : mstate :=
     end.
 
 Definition xml_switch (s : mstate) (t' : topo) : mstate :=
-  let s0 := MS t' init_attrs in
+  let s0 := MS t' init_attrs [] in
   let s1 := fold_left xml_import_attr (number_from 0 (m_attrs s)) s0 in
-  MS t' (refresh_all t' (need_refresh (m_attrs s1))).
+  MS t' (refresh_all t' (need_refresh (m_attrs s1))) (m_alloc s1).
 
 (* ------------------------------------------------------------------ *)
 (* one interpreter for histories *)
@@ -600,7 +619,7 @@ Definition step (s : mstate) (o : op) : mstate * out :=
   | OLocal l f m n => (s, RNodes (local_numanodes s l f m n))
   | ODefNodes f => (s, RSet (default_nodeset s f))
   | ORetopo t' => (retopo s t', RUnit (Ok tt))
-  | ODup => (dup_switch s, RUnit (Ok tt))
+  | ODup => (dup_switch s, RUnit (if dup_shares s then Err EUB else Ok tt))
   | OXml t' => (xml_switch s t', RUnit (Ok tt))
   end.
 
